@@ -30,8 +30,9 @@ def _is_pure(e):
         return _is_pure(e.operand)
     if isinstance(e, ast.BinOp):
         return _is_pure(e.left) and _is_pure(e.right)
-    if isinstance(e, (ast.Tuple, ast.List)):
+    if isinstance(e, ast.Tuple):
         return all(_is_pure(x) for x in e.elts)
+    # a list / dict / set display creates a new mutable object each time it is evaluated: never substituted
     return False
 
 
@@ -91,6 +92,9 @@ def inlinable(h):
         return False
     body = _strip_doc(h.body)
     if single_exit(copy.deepcopy(body), '_ret') is None:
+        return False
+    # a mutable default is one object shared by all calls: inlining would give every call a new one
+    if any(not isinstance(d, (ast.Constant, ast.Name, ast.Attribute, ast.UnaryOp, ast.Tuple)) for d in h.args.defaults):
         return False
     for b in body:
         for n in ast.walk(b):
